@@ -143,7 +143,9 @@ pub const KF_NAMED_HANDLE_ALIAS: &str = "panic any-backend: named handle alias (
 pub const KF_CSHARP_ASYNC_INDIRECT: &str = "panic csharp crates/csharp/src/interface.rs: not yet implemented: indirect params not supported for async imports yet";
 pub const KF_C_PARAM_NAMED_RESULT: &str = "panic c crates/c/src/lib.rs: called `Result::unwrap()` on an `Err` value: \"name `result` already defined\"";
 
-pub const KF_C_WORLD_TYPE_NAMED_STRING: &str = "c-compile-error: world-level type named `string` redefines the <world>_string_t typedef";
+pub const KF_C_WORLD_TYPE_NAMED_STRING: &str = "c-compile-error: world-level type named like a type the header defines itself redefines <world>_<name>_t";
+/// names of the types every generated C header may define with the world's prefix
+pub const C_HEADER_OWN_TYPES: &[&str] = &["string", "event", "waitable-set", "waitable-status", "subtask", "event-code", "subtask-status", "callback-code", "waitable-state", "subtask-state"];
 pub const KF_C_PAYLOAD_NAMED_LIKE_PRIMITIVE: &str = "c-compile-error: future/stream helpers of a payload type named like a primitive collide with the primitive's helpers";
 pub const PRIMITIVE_NAMES: &[&str] = &["bool", "u8", "u16", "u32", "u64", "s8", "s16", "s32", "s64", "f32", "f64", "char", "string"];
 pub const KF_C_ITEM_NAMED_LIKE_WORLD: &str = "panic c crates/c/src/lib.rs: duplicate symbols: world item named like the world";
@@ -216,7 +218,7 @@ pub fn profile_excluding_known(backend: &str, variant: &str, known: &[String]) -
     }
     if backend == "c" && has(KF_C_WORLD_TYPE_NAMED_STRING) {
         // (no finer knob: the name is avoided for interface-level types as well)
-        p.avoid_type_names.push("string");
+        p.avoid_type_names.extend(C_HEADER_OWN_TYPES);
     }
     if backend == "c" && has(KF_C_PAYLOAD_NAMED_LIKE_PRIMITIVE) {
         p.avoid_type_names.extend(PRIMITIVE_NAMES);
